@@ -51,7 +51,7 @@ AllDevs == {"FloatTrunc", "Mutable", "PowMember", "ReservedName"}
 (* of the enum the operation is applied to)                                                                    *)
 V(ty, v, s) == [ty |-> ty, v |-> v, s |-> s]
 (* results:  r \in mem (s = v) | int v | bool v | frac v / w | pair <<v, w>> | str s | exc s | enum (s, m) | ok *)
-R(r, v, w, s) == [r |-> r, v |-> v, w |-> w, s |-> s, m |-> <<>>]
+R(r, v, w, s) == [r |-> r, v |-> v, w |-> w, s |-> s, m |-> <<>>, k |-> <<>>]
 Exc(c) == R("exc", 0, 0, c)
 IntR(v) == R("int", v, 0, "")
 BoolR(b) == R("bool", IF b THEN 1 ELSE 0, 0, "")
@@ -106,7 +106,13 @@ Fold(S, st, ps) == IF ps = <<>> \/ st.err # "" THEN st
                    ELSE Fold(S, Add(S, st.map, Head(ps).k, Head(ps).val), Tail(ps))
 
 AsPieces(map) == LET ms == Members(map) IN [j \in 1 .. Len(ms) |-> [k |-> ms[j].n, val |-> V("int", ms[j].v, "")]]
-EnumR(e) == [r |-> "enum", v |-> 0, w |-> 0, s |-> e.nm, m |-> Members(e.map)]
+(* what can be seen of an enum: display name, members in value order, and the lookup table (each member under     *)
+(* its value and under its name, nothing else)                                                                  *)
+KeyTable(map) == LET ms == Members(map) IN
+  [j \in 1 .. 2 * Len(ms) |-> LET x == ms[(j + 1) \div 2] IN
+      IF j % 2 = 1 THEN [int |-> TRUE, ki |-> x.v, ks |-> "", n |-> x.n, v |-> x.v]
+      ELSE [int |-> FALSE, ki |-> 0, ks |-> x.n, n |-> x.n, v |-> x.v]]
+EnumR(e) == [r |-> "enum", v |-> 0, w |-> 0, s |-> e.nm, m |-> Members(e.map), k |-> KeyTable(e.map)]
 
 (* Enum(nm, parent, **kp):  nmok = FALSE: the first argument is neither a string nor a dict / Enum;            *)
 (* par \in none | dict (pieces dp) | enum (parent) | bad (a list of names, a python enum.Enum, an int);         *)
